@@ -29,6 +29,11 @@ def gen_cases(tier, seed):
     for i, d in enumerate(mp.gen_small_specs(rnd, n, tier, costs="tradeoff")):
         cases.append({"class": "complete/" + d["arch"]["size_class"], "desc": d, "budget": 2500 if tier == "quick" else 20000,
                       "metrics": "ENERGY|LATENCY" if i % 3 else "ENERGY|LATENCY|RESOURCE_USAGE"})
+    nu = 8 if tier == "quick" else 60
+    for i in range(nu):
+        wk = rnd.choice(["chain2", "chain2", "mvchain2"])
+        d = gs.gen_spec(rnd, wk, levels=rnd.choice([2, 3]), costs="tradeoff", size_class=rnd.choice(["tight", "generous"]))
+        cases.append({"class": "usage_front", "desc": d, "scale": 1.0, "metrics": "ENERGY|LATENCY|RESOURCE_USAGE"})
     ns = 12 if tier == "quick" else 100
     for i in range(ns):
         d = gs.gen_spec(rnd, rnd.choice(["mm1", "chain2", "mvchain2", "fanin2"]), levels=2, costs="tradeoff",
@@ -53,7 +58,16 @@ def dominance_checks(rows, finite_mems, with_usage, viol, witness_extra):
             if i == j:
                 continue
             if all(x <= y for x, y in zip(a, b)) and any(x < y for x, y in zip(a, b)):
-                viol.append({"sig": "returned_row_strictly_dominated", "witness": dict(witness_extra, dominating=a, dominated=b)})
+                sig = "returned_row_strictly_dominated"
+                if with_usage:
+                    # the code prunes on every reservation column; the reported usage is the per-memory maximum.
+                    # Is row j also dominated on the raw columns?
+                    cols = sorted(set(rows[i].get("reservations", {})) | set(rows[j].get("reservations", {})))
+                    ra = [rows[i]["energy"], rows[i]["latency"]] + [rows[i]["reservations"].get(c, 0.0) for c in cols]
+                    rb = [rows[j]["energy"], rows[j]["latency"]] + [rows[j]["reservations"].get(c, 0.0) for c in cols]
+                    if not (all(x <= y for x, y in zip(ra, rb)) and any(x < y for x, y in zip(ra, rb))):
+                        sig = "dominated_only_on_per_memory_maximum_usage"
+                viol.append({"sig": sig, "witness": dict(witness_extra, dominating=a, dominated=b)})
                 return
     seen = {}
     for i, a in enumerate(vs):
@@ -72,7 +86,7 @@ def run_case(case):
     metrics = case["metrics"]
     with_usage = "RESOURCE_USAGE" in metrics
     finite = [m["name"] for m in d["arch"]["mems"] if m.get("size", "inf") != "inf"]
-    if case["class"] == "magnitude":
+    if case["class"] in ("magnitude", "usage_front"):
         d = copy.deepcopy(d)
         k = case["scale"]
         for m in d["arch"]["mems"]:
@@ -80,11 +94,12 @@ def run_case(case):
             m["write_e"] *= k
         d["arch"]["mac"]["energy"] *= k
         try:
-            rows = H.result_rows(H.run_mapper(d, metrics), with_tree=False)
+            # joined numbers (eval_in_detail=False) so that the raw reservation columns the join pruned on are visible
+            rows = H.result_rows(H.run_mapper(d, metrics, eval_in_detail=not with_usage), with_tree=False)
         except H.NoMapping:
             return {"status": "ok", "counters": {"no_valid_mapping": 1}}
         counters["fronts_checked_for_dominance"] = 1
-        dominance_checks(rows, finite, False, viol, {"energy_scale": k, "spec": gs.summary(case["desc"])})
+        dominance_checks(rows, finite, with_usage, viol, {"energy_scale": k, "metrics": metrics, "spec": gs.summary(case["desc"])})
         for v in viol:
             if k != 1.0:
                 v["sig"] += ":at_energy_scale"
